@@ -86,8 +86,8 @@ class C18(Prop):
             a = drive.ct_offline(lang.to_text(lhs), names, sig)
             b = drive.ct_offline(lang.to_text(rhs), names, sig)
         except Exception as e:
-            if all(x != x for x in el.vs) or all(x != x for x in er.vs):
-                v.skip = 'raised on a completely NaN-tainted formula'
+            if any(x != x for x in el.vs) or any(x != x for x in er.vs):
+                v.skip = 'raised on a NaN-tainted formula'
                 return v
             v.bad('raises:' + type(e).__name__, '%s | %s (dense offline): raised %s: %s' % (
                 lang.to_text(lhs), lang.to_text(rhs), type(e).__name__, e))
@@ -158,8 +158,8 @@ class C18(Prop):
             a = run(lhs)
             b = run(rhs)
         except Exception as e:
-            if all(x != x for x in el.vs) or all(x != x for x in er.vs):
-                v.skip = 'raised on a completely NaN-tainted formula'
+            if any(x != x for x in el.vs) or any(x != x for x in er.vs):
+                v.skip = 'raised on a NaN-tainted formula'
                 return v
             v.bad('raises:' + type(e).__name__, '%s | %s (dense online, cuts %s): raised %s: %s' % (
                 lang.to_text(lhs), lang.to_text(rhs), case['cuts'], type(e).__name__, e))
